@@ -232,6 +232,7 @@ let () =
 type gen_action =
   | GAct of eact
   | GHelper of z * z * Model.genstop list * z list   (* shape, spread, stops, matrix *)
+  | GSkip  (* Generator.SetTransform: no effect on the gradient helpers *)
   | GNew   (* what came before was an earlier use of the same Encoder and Renderer: forget the rasteriser log *)
 
 let rec parse_stops n toks acc =
@@ -244,6 +245,7 @@ let rec gacts_of_toks (t : string list) : gen_action list =
   match t with
   | [] -> []
   | "NEW" :: r -> GNew :: gacts_of_toks r
+  | "ST" :: _ :: r -> GSkip :: gacts_of_toks r
   | "LG" :: x1 :: y1 :: x2 :: y2 :: sp :: n :: r ->
       let (stops, r') = parse_stops (int_of_string n) r [] in
       GHelper (Z0, z_of_dec sp, stops, linear_matrix (z_of_hex x1) (z_of_hex y1) (z_of_hex x2) (z_of_hex y2)) :: gacts_of_toks r'
@@ -290,6 +292,7 @@ let () =
            | GAct (ACall c) -> rs := rstep32 !rs c; es := fst (enc_act !es (ACall c))
            | GAct a -> es := fst (enc_act !es a)
            | GNew -> rs := { !rs with r_log = [] }
+           | GSkip -> ()
            | GHelper (sh, sp, stops, m) ->
                (* into the Renderer *)
                (match set_gradient !rs.r_csel !rs.r_nsel sh sp stops m with
